@@ -18,6 +18,8 @@ from .harness import REPO
 def _iszero(v):
     if isinstance(v, Sym):
         return v.is_zero()
+    if hasattr(v, 're') and hasattr(v, 'im') and hasattr(v, 'is_zero'):
+        return v.is_zero()
     if isinstance(v, (int, float, complex, Fraction, _np.number)):
         return v == 0
     return False
